@@ -1,0 +1,14 @@
+//go:build verif
+
+package importcache
+
+// VerifTrace, when set by a verification harness, receives one event per step of getOrAdd, emitted
+// while the cache mutex is held (so the events of all goroutines are totally ordered):
+// hit, wait, claim, publish, abandon.
+var VerifTrace func(ev, key string)
+
+func verifTrace(ev, key string) {
+	if VerifTrace != nil {
+		VerifTrace(ev, key)
+	}
+}
